@@ -96,6 +96,13 @@ Inductive rin :=
 | IStart (r : role) (d : duty) (ctrl_height : N) (inst_ok : bool)
 | IMsg (pk_ok : bool) (r : role) (b : body).  (* MsgID: validator key matches?, role *)
 
+(* the committee as the runners see it *)
+(* v_fix_resign: the code contains the repair of finding F-resign (didDecideCorrectly also refuses when
+   State.DecidedValue is already set); read from the source by the check (coq/Gen/RunnerConsts.v);
+   v_fix_multi: the sync-committee contribution runner contains the repair of finding P3 (see
+   PartialSig.fix_multi) *)
+Record vcfg := { v_committee : list N; v_quorum : nat; v_fix_resign : bool; v_fix_multi : bool }.
+
 (* ---- outputs --------------------------------------------------------------------------------- *)
 
 Inductive rclass :=
@@ -106,9 +113,6 @@ Inductive rout :=
 | Sign (r : role) (d : domain) (obj : N)                     (* KeyManager.SignBeaconObject *)
 | Bcast (r : role) (post : bool) (slot : N) (objs : list N)  (* Network.Broadcast of a partial-signature message *)
 | Submit (r : role) (s : submission).
-
-(* the committee as the runners see it *)
-Record vcfg := { v_committee : list N; v_quorum : nat }.
 
 (* ---- StartDuty ------------------------------------------------------------------------------- *)
 
@@ -146,7 +150,9 @@ Definition with_decision (ds : dstate) (dv : decided_value) : dstate :=
      ds_finished := ds_finished ds; ds_pre := ds_pre ds; ds_post := ds_post ds;
      ds_nsign := S (ds_nsign ds) |}.
 
-Definition process_consensus (r : role) (st : option dstate) (o : cons_oracle)
+Definition is_some {A : Type} (x : option A) : bool := match x with Some _ => true | None => false end.
+
+Definition process_consensus (g : vcfg) (r : role) (st : option dstate) (o : cons_oracle)
   : option dstate * rclass * list rout :=
   if negb (has_consensus r) then (st, CNoCons, [])
   else if co_err o then (st, CCtrl, [])
@@ -165,6 +171,7 @@ Definition process_consensus (r : role) (st : option dstate) (o : cons_oracle)
               | Some h =>
                   if negb (N.eqb (dc_height dc) h) then (st, CWrongInst, [])
                   else if co_prev o then (st, COk, [])
+                  else if v_fix_resign g && is_some (ds_decided ds) then (st, COk, [])
                   else if negb (dc_decodes dc) then (st, CDecode, [])
                   else if negb (dc_valid dc) then (st, CInvalid, [])      (* validateDecidedConsensusData *)
                   else
@@ -199,7 +206,8 @@ Definition process_pre (g : vcfg) (r : role) (st : option dstate) (m : smsg) (in
         if ds_finished ds then (st, CPart ENoDuty, [])
         else
           let pg := {| committee := v_committee g; quorum := v_quorum g;
-                       duty_slot := du_slot (ds_duty ds); expected := du_pre (ds_duty ds) |} in
+                       duty_slot := du_slot (ds_duty ds); expected := du_pre (ds_duty ds);
+                       fix_multi := false |} in
           match validate pg m with
           | EOk =>
               let '(c1, roots) := base_processing (v_quorum g) (ds_pre ds) (s_msgs m) in
@@ -244,7 +252,8 @@ Definition process_post (g : vcfg) (r : role) (st : option dstate) (m : smsg) (i
                   if negb inst_decided then (st, CNotDecided, [])
                   else
                     let pg := {| committee := v_committee g; quorum := v_quorum g;
-                                 duty_slot := dv_slot dv; expected := dv_objs dv |} in
+                                 duty_slot := dv_slot dv; expected := dv_objs dv;
+                                 fix_multi := v_fix_multi g |} in
                     let '(ps, o) := PartialSig.step pg {| cont := ds_post ds; finished := false |} (m, true) in
                     (Some {| ds_duty := ds_duty ds; ds_running := ds_running ds; ds_decided := ds_decided ds;
                              ds_finished := finished ps; ds_pre := ds_pre ds; ds_post := cont ps;
@@ -267,7 +276,7 @@ Definition vstep (g : vcfg) (v : vstate) (i : rin) : vstate * rclass * list rout
       else
         let '(st, c, outs) :=
           match b with
-          | BCons o => process_consensus r (v r) o
+          | BCons o => process_consensus g r (v r) o
           | BPre m inst_ok => process_pre g r (v r) m inst_ok
           | BPost m inst_decided => process_post g r (v r) m inst_decided
           end in
